@@ -18,13 +18,13 @@ CLAIMS = {
           "Clause 1 (Fermat factors exactly when (p+q)/2 - ceil(sqrt n) < max_steps) is discharged for all n, max_steps through the quantified loop invariant of FermatFactor. Clauses 2 and 3 (equal high/low bits, documented prime differences) are bounded stand-ins over seeded family members.",
           NOTE, "DESIGN.md 4/C04"),
   "C05": ("exploration", TECH + " (flag logic deductive; detection bounded, sampled)",
-          "Detection rests on LLL / best-first heuristics: seeded members of each documented family at the documented margins (bounded, sampled). Deductive part: the Check methods flag exactly when the callee reports (CheckContinuedFraction, Pollardpm1 gcd_bound gate, LowHammingWeight severity rule), search loops try candidates until the first success.",
+          "Detection rests on LLL / best-first heuristics: seeded members of each documented family at the documented margins (bounded, sampled). Deductive part: the Check methods flag exactly when the callee reports (CheckContinuedFraction, LowHammingWeight severity rule), search loops try candidates until the first success; Pollardpm1 is proved to be the mechanism the property names (gate gcd(n-1, m) >= bound, base 2^(n-1) mod n, flagged <=> gcd(a^m - 1, n) > 1, factored with that gcd when proper).",
           NOTE, "DESIGN.md 4/C05"),
   "C10": ("exploration", TECH + " (search space, table index space and index mapping deductive; group-element correctness of the search bounded)",
           "Deductive part (all n, all list lengths, all curves): BatchDL search space (the giant steps j*t together with the baby-step window |delta| < table_size reach every x in [0, n); the table cached on the curve is at least as large as the window), PointTable index space (the stored values i*m + j with j < m == len(sequence_low), i < len(sequence_high) reach every index in [0, n)), BatchDLOfDifferences (cached table covers max_diff whenever the search runs), CheckWeakECPrivateKey / CheckECKeySmallDifference flag key i exactly when search result i is not None (partition by curve preserves the index mapping). That table keys and candidates are the right group elements (PointSequence, BatchAddX values, ExtendedBatchDL multiplier bookkeeping) is assumed and decided by the bounded tier: exhaustive for all x, all list lengths and call histories on small prime-order curves, edge cases on named curves.",
           NOTE, "DESIGN.md 4/C10"),
   "C11": ("proof", TECH,
-          "Formulas, for every prime field (congruence mode: the bodies are executed with `% self.mod` dropped, postconditions are integer polynomial identities over ghost affine coordinates, the chord/tangent slope stated inverse-free): AddJacobian and DoubleJacobian (both the a == -3 shortcut and the general formula) represent the textbook chord / tangent result (X3 == x3*Z3^2, Y3 == y3*Z3^3), affine Add / Double satisfy the textbook law with an explicit modular-inverse witness, Negate, AffineToJacobian, JacobianToAffine. Named-curve parameters: ground obligations. Special-case branch correspondence, scalar multiplication loops and every batched variant: bounded, exhaustive over whole small prime-order groups against an independent implementation.",
+          "Formulas, for every prime field (congruence mode: the bodies are executed with `% self.mod` dropped, postconditions are integer polynomial identities over ghost affine coordinates, the chord/tangent slope stated inverse-free): AddJacobian and DoubleJacobian (both the a == -3 shortcut and the general formula) represent the textbook chord / tangent result (X3 == x3*Z3^2, Y3 == y3*Z3^3), affine Add / Double satisfy the textbook law with an explicit modular-inverse witness, Negate, AffineToJacobian, JacobianToAffine. BatchInverse (Montgomery trick) for every modulus and list. Value pass (body unmodified): which branch (chord / tangent / infinity / other operand) Add, AddJacobian, Double, DoubleJacobian take, stated as a comparison of field elements (lemmas mod_mul_r, mod_eq_iff proved on every run), results reduced to [0, p), no ZeroDivisionError under the stated prime-field hypothesis. Named-curve parameters: ground obligations. Scalar multiplication loops and the other batched variants (values), non-canonical representatives end to end: bounded, exhaustive over whole small prime-order groups against an independent implementation.",
           NOTE + " Associativity of the group law (needed for Multiply / BatchMultiplyG correctness) is not proved; those are bounded.", "DESIGN.md 4/C11"),
   "C06": ("proof", TECH,
           "CheckSizes/CheckExponents/CheckROCA/CheckROCAVariant flag exactly their closed-form criterion (loop-body obligations over an arbitrary artifact); ROCAKeyDetector._HasDiscreteLog/IsWeak and ROCAKeyVariantDetector.IsWeak are proved against their definitions (39/48 primes, Euclidean witnesses). Denylist fingerprints, keypair table and EC criteria: see evidence (bounded / not yet under contract).",
@@ -42,13 +42,13 @@ CLAIMS = {
           "Insufficient-data guards and parameter ladders are discharged for all n: BlockFrequency (n<100; block size >= 20 and < 100 blocks), LongestRuns (n<128; M = 8/128/10^4 by NIST thresholds), BinaryMatrixRank (n < 38rc, incl. that the callee cannot raise), Universal (n<387840; largest admissible L, Q = 10*2^L), LinearComplexity, LargeBinaryMatrixRank (n<4096); SplitSequence length/range. Tables: ground obligations with exact rationals; integer statistics and invariances: bounded; floating-point p-value formulas: not decided by this family.",
           NOTE + " Floats are not modelled: function tails after the guard prefix are abstracted (listed in evidence).", "DESIGN.md 4/C12"),
   "C13": ("exploration", TECH + " (only util.CombinedPValue's control structure is deductive; the decision rule of TestStructure is a bounded stand-in)",
-          "TestStructure.Run/Failed decision rule: bounded exhaustive over scripted p-value sequences against an independent Fisher combination; util.CombinedPValue control structure (empty -> ValueError, singleton identity, a zero -> 0) proved. The two statistical sentences of the property are not decidable by contracts.",
+          "TestStructure.Run/Failed decision rule: bounded exhaustive over scripted p-value sequences against an independent Fisher combination; util.CombinedPValue control structure (empty -> ValueError, singleton identity, a zero -> 0) proved; LargeBinaryMatrixRank size ladder proved (every 64*2^j whose square fits into n is tested, the largest one included). The two statistical sentences of the property are not decidable by contracts.",
           NOTE, "DESIGN.md 4/C13"),
   "C14": ("exploration", TECH + " (closed forms deductive; Berlekamp-Massey implementations bounded)",
           "LfsrCount/LfsrLogProbability proved equal to the Rueppel closed form and consistent with each other for all n, m. The three linear-complexity implementations (pure Python, C++ with and without CLMUL compiled from the working tree) are a bounded stand-in: exhaustive over all short sequences against a brute-force shortest-LFSR oracle plus agreement on structured long sequences.",
           NOTE + " No C verifier is installed; the C++ code is only exercised, not proved.", "DESIGN.md 4/C14"),
-  "C15": ("exploration", TECH + " (length/range contracts deductive; definitions bounded)",
-          "SplitSequence length and block range proved for all inputs; every bit-sequence primitive is checked exhaustively on all short strings and on both sides of each fast-path threshold against one-line definitions (bounded).",
+  "C15": ("exploration", TECH + " (SplitSequence deductive; the other primitives bounded)",
+          "SplitSequence proved equal to its definition for all inputs (block j == (seq >> j*m) mod 2^m on the byte-aligned and on the shift-and-mask path; little-endian bytes theory, pow2 lemmas proved on every run); every other bit-sequence primitive is checked exhaustively on all short strings and on both sides of each fast-path threshold against one-line definitions (bounded).",
           NOTE, "DESIGN.md 4/C15"),
   "C17": ("proof", TECH,
           "Non-interference by loop cut: every per-artifact loop body of the individual checks is verified from an ARBITRARY state of all loop-carried variables (havoc at the cut) and writes only to that artifact's own test_info (call-site obligations `args[0] is key.test_info`), with closed-form verdicts proved functions of the artifact alone; joint checks: verdict i is tied to search result i through the order-preserving per-curve / per-issuer partition. The EC table shared across calls: PointTable's index space and BatchDL's `self._table_size >= table_size` obligation are discharged for every request size; a syntactic frame obligation per function rules out any other state outside the arguments (module/class-level mutation, writes to self outside __init__). Batch-size dependence of the search range (finding F9) and histories on real objects: bounded tier.",
